@@ -1,6 +1,7 @@
 import Bec2Verif.Lemmas.EcdsaSound
 import Bec2Verif.Lemmas.EcdsaCodec
 import Bec2Verif.Props.C17Group
+import Bec2Verif.Lemmas.P256Laws
 /-!
 # C18 — ECDSA: signatures verify, range and malformed signatures are rejected, codecs round-trip, RFC 6979 range
 
@@ -26,17 +27,7 @@ variable {p : ℕ} [Fact p.Prime] {a b : ℤ}
 
 /-- a point of prime order `N`: `k • P = 0 ↔ N ∣ k` -/
 theorem order_exact (N : ℕ) (hNp : N.Prime) (P : G p a b) (hNP : (N : ℤ) • P = 0) (hP0 : P ≠ 0) (k : ℤ) :
-    k • P = 0 ↔ (N : ℤ) ∣ k := by
-  have hdvd : addOrderOf P ∣ N := by
-    apply addOrderOf_dvd_of_nsmul_eq_zero
-    have : ((N : ℕ) : ℤ) • P = 0 := hNP
-    rwa [natCast_zsmul] at this
-  have hord : addOrderOf P = N := by
-    rcases (Nat.dvd_prime hNp).mp hdvd with h | h
-    · exact absurd (AddMonoid.addOrderOf_eq_one_iff.mp h) hP0
-    · exact h
-  rw [← hord]
-  exact (addOrderOf_dvd_iff_zsmul_eq_zero).symm
+    k • P = 0 ↔ (N : ℤ) ∣ k := EcdsaC.order_exact N hNp P hNP hP0 k
 
 /-- **signatures verify.**  Domain: curve over the prime field `p` satisfying `CurveOK`, generator `Gp` (affine,
 reduced x) of odd prime order `N`.  Whatever the secret, the hash value and the nonce are, a pair returned by `sign` is
@@ -178,6 +169,32 @@ theorem ecdsa23_end_to_end (secret hash randomK r s X Y Z : ℤ)
   exact signatures_verify curveOK_23 d23 rfl rfl 31 rfl (by decide) (by decide) G23 trep23 ⟨by decide, by decide⟩
     ord23 (by intro h; cases h) secret { X := X, Y := Y, Z := Z, order := 31, gen := false } hrep hxc (Or.inr rfl) rfl
     hash randomK r s hs
+
+/-! ### NIST P-256, the curve of the BEC2 plug-in: every hypothesis is a theorem -/
+
+/-- the P-256 domain as found in the current source (`Gen/Curves.lean`, regenerated on every run) -/
+def d256 : Domain := { curve := P256.curve, gx := P256C.gX, gy := P256C.gY, n := (P256C.N : ℤ), h := 1 }
+
+/-- **ECDSA on NIST P-256, end to end**: for every secret, hash value and nonce, with the public point computed by the
+library's own `generator * secret`, a signature returned by `sign` verifies.  Nothing is assumed: the field prime and
+the group order are proved prime (Lucas certificates), the curve has no point with `y = 0` (certificate), `n·G = 0`
+(kernel evaluation of the model), and the point arithmetic is the group law (C17). -/
+theorem ecdsa_p256_end_to_end (secret hash randomK r s X Y Z : ℤ)
+    (hpub : pjMul d256.curve d256.G secret = some (.jac X Y Z))
+    (hs : sign d256 secret hash randomK = .ok (r, s)) :
+    verifies d256 { X := X, Y := Y, Z := Z, order := (P256C.N : ℤ), gen := false } hash r s = .ok true := by
+  have hG : PRep P256C.P P256C.cA P256C.cB P256C.Gp d256.G.pt := P256C.g_trep
+  have hrep := pjMul_rep P256C.cOK d256.curve P256C.curve_p P256C.curve_a d256.G hG (fun _ => P256C.g_order)
+    (fun _ => by decide +kernel) secret hpub
+  have hxc := pjMul_xc d256.curve P256C.hpp d256.G P256C.g_xc secret _ hpub
+  have hxc' : XCPt (P256C.P : ℤ) (.jac X Y Z) := by rw [← P256C.curve_p]; exact hxc
+  have hgx : 0 ≤ d256.gx ∧ d256.gx < (P256C.P : ℤ) := by
+    have := P256C.g_xc
+    rw [P256C.curve_p] at this
+    exact this
+  exact signatures_verify P256C.cOK d256 P256C.curve_p P256C.curve_a P256C.N rfl P256C.n_prime (by decide) P256C.Gp
+    P256C.g_trep hgx P256C.g_order P256C.g_ne secret { X := X, Y := Y, Z := Z, order := (P256C.N : ℤ), gen := false }
+    hrep hxc' (Or.inr rfl) rfl hash randomK r s hs
 
 /-- a concrete signature (`secret = 7`, `hash = 5`, nonce 3) and its verification, by evaluation of the model … -/
 example : sign d23 7 5 3 = .ok (3, 19) := by decide +kernel
